@@ -17,8 +17,8 @@ RULE = ('environment-answer enumeration: for every base problem (conelp, coneqp,
 ASSUME = ['the solver frame (locals iters) is read at injection time to decide whether the fault hit start-up / iteration 0',
           "after a fault only: ValueError mentioning Rank (start-up or iteration 0), status 'unknown' with s, z strictly interior and self-consistent fields, or a continuation whose final status passes that status's own certificate oracle",
           'executions run to completion; livelock horizon: 60 consecutive refusals']
-BOUNDS = {'quick': '26 base problems x every single fault position (factor and solve) + refusal patterns (iteration x r<=4)',
-          'thorough': '60 base problems; all pairs of fault positions (bound 2) on a sub-list; r<=6'}
+BOUNDS = {'quick': '26 base problems x every single fault position (factor and solve), transient and persistent (all later calls fail too) + refusal patterns (iteration x r<=4)',
+          'thorough': '60 base problems; every single fault position, transient and persistent; on every 4th base problem all pairs (factor k < 16, solve j < 64) and all pairs of solves j < 64 at distance <= 5 (bound 2); r<=6'}
 TECHNIQUE = 'exhaustive enumeration of fault positions (deviation-bounded) against a reference model of the documented failure protocol'
 
 
@@ -142,6 +142,11 @@ def base_list(tier, seed):
                 if cone and cone['s'] == [2, 2] and (rf == 0 or tier == 'quick' and not t.startswith('ball')):
                     continue
                 out.append({'kind': 'nl', 'tag': t, 'cone': cone, 'refinement': rf, 'seed': seed})
+    if tier == 'quick':
+        # a start 2^-20 from the domain boundary with an order-2 's' block: the relaxed line searches fail here and cpl
+        # resumes its saved line search (the state restored there includes the eigen-decomposition of the 's' steps)
+        out.append({'kind': 'nl', 'tag': 'logdom.0.9.53674e-07', 'cone': {'l': 1, 'q': [2], 's': [2]}, 'refinement': 1,
+                    'seed': seed, 'maxiters': 52})
     return out
 
 
@@ -189,6 +194,8 @@ def _setup(b):
     cfg = {'opts': {'refinement': b['refinement']}}
     if b['tag'].startswith('ball'):
         cfg['opts']['maxiters'] = 14     # the overshoot and the restore happen within the first 12 iterations
+    if b.get('maxiters'):
+        cfg['opts']['maxiters'] = b['maxiters']
 
     def runner(flt, refuse=None, none_style=0):
         rec = {'calls': []}
@@ -271,6 +278,9 @@ def _interior_nl(O, res, pb, site):
             O.bad('unknown:%s-not-interior:%s' % (nm, site), "status 'unknown' but (%snl, %sl) is not strictly positive" % (nm, nm))
 
 
+DF_K, DF_J = 16, 64
+
+
 def run(case):
     b = case['base']
     tier = case.get('tier', 'quick')
@@ -287,9 +297,14 @@ def run(case):
     nf, ns = base.nf, base.ns
     outcomes['fault-free:' + str(res0.get('status'))] = 1
     plans = [((k,), ()) for k in range(nf)] + [((), (j,)) for j in range(ns)]
+    # persistent failures: from call k on every factorisation (every solve) fails, so that the retry after cpl's
+    # restore of the saved state fails as well and the solver has to report the restored iterates
+    plans += [(tuple(range(k, k + 400)), ()) for k in range(nf)] + [((), tuple(range(j, j + 1600))) for j in range(ns)]
     if tier == 'thorough' and case['idx'] % 4 == 0:
-        plans += [((k,), (j,)) for k in range(nf) for j in range(ns)]
-        plans += [((), (j, j2)) for j in range(ns) for j2 in range(j + 1, min(ns, j + 6))]
+        # double faults: every (factor k, solve j) and every pair of solves at distance <= 5, within the first
+        # DF_K factorisations / DF_J solves (runs that use all 100 iterations make 100 x 400 calls)
+        plans += [((k,), (j,)) for k in range(min(nf, DF_K)) for j in range(min(ns, DF_J))]
+        plans += [((), (j, j2)) for j in range(min(ns, DF_J)) for j2 in range(j + 1, min(ns, j + 6))]
     for ff, fs in plans:
         flt = Fault(ff, fs)
         res, rec = runner(flt)
@@ -304,7 +319,7 @@ def run(case):
             nontriv += 1
         outcomes[lab] = outcomes.get(lab, 0) + 1
         for v in O.viol[nv:]:
-            v['sub'] = {'base': b, 'fail_factor': list(ff), 'fail_solve': list(fs), 'hit': flt.hit[:2]}
+            v['sub'] = {'base': b, 'fail_factor': list(ff)[:3], 'fail_solve': list(fs)[:3], 'persistent': len(ff) + len(fs) > 2, 'hit': flt.hit[:2]}
         if len(O.viol) > 30:
             break
     if b['kind'] == 'nl':
